@@ -1,5 +1,5 @@
 #!/bin/sh
-for p in c10 c17 c08 c11 c12 c05 c14 c04 c07 c09 c13 c18 c03 c02 c01; do
+for p in c14 c13 c17 c10 c12 c05 c04 c07 c11 c09 c08 c18 c03 c02 c01; do
   echo "=== $p $(date +%H:%M:%S)"
   ./check $p --tier thorough 2>&1 | grep -E "^VIOLATION|^KNOWN|^HARNESS|oracle=|^\[C|^timeout after|Error|^  File .*tsim" | cut -c1-600
 done
